@@ -10,13 +10,17 @@
    give alone (C19_non_interference, generic); Update and Count of the Redis Count-Min sketch
    are local to the sketch's row keys, and sketches with different 16-letter base keys have
    disjoint row keys (C19_cms_structures_do_not_interfere); HyperLogLog's and Bloom's calls are
-   local to their single data key. For the cuckoo filter and Top-K the locality of each call is
-   decided by correspondence: 2-8 live structures of mixed kinds share
-   one miniredis, their histories are interleaved, each structure's answers are diffed against
-   its model run alone on an empty store, and a monitor checks that a structure's answers change
-   only through operations on its own handles (partial for those two). *)
-From GX.Model Require Import Base Redis RedisCMS RedisHLL RedisBloom.
-From GX.Proofs Require Import ListLemmas RedisProofs FrameProofs.
+   local to their single data key; the cuckoo filter's Insert (whole eviction loop and roll-back),
+   Lookup, Remove and Length are local to its bucket lists, their counters and its metadata hash,
+   and two filters with different 16-letter base keys own disjoint keys
+   (C19_cuckoo_filters_do_not_interfere); Top-K's Insert and Values are local to its sketch rows
+   and its sorted set. So all five kinds are covered by theorems for their updates and queries;
+   creation, import under new keys and re-attachment are decided by correspondence: 2-8 live
+   structures of mixed kinds share one miniredis, their histories are interleaved, each
+   structure's answers are diffed against its model run alone on an empty store, and a monitor
+   checks that a structure's answers change only through operations on its own handles. *)
+From GX.Model Require Import Base Redis RedisCMS RedisHLL RedisBloom RedisCuckoo Heap TopK RedisTopK.
+From GX.Proofs Require Import ListLemmas RedisProofs FrameProofs CuckooFrame TopKFrame.
 
 Theorem C19_decimal_injective : forall a b, dec a = dec b -> a = b.
 Proof. exact dec_injective. Qed.
@@ -79,6 +83,34 @@ Proof. exact bloom_lookup_local. Qed.
 Theorem C19_single_keys_disjoint : forall k1 k2, k1 <> k2 -> forall k, Kone k1 k -> Kone k2 k -> False.
 Proof. exact keys_disjoint_one. Qed.
 
+(* cuckoo filter: every call is local to the filter's own keys *)
+Theorem C19_cuckoo_insert_local : forall h64 h x destructive coin draws,
+  local (Kck h) (op_ck_insert h64 h x destructive coin draws).
+Proof. exact ck_insert_local. Qed.
+Theorem C19_cuckoo_lookup_local : forall h64 h x, local (Kck h) (op_ck_lookup h64 h x).
+Proof. exact ck_lookup_local. Qed.
+Theorem C19_cuckoo_remove_local : forall h64 h x, local (Kck h) (op_ck_remove h64 h x).
+Proof. exact ck_remove_local. Qed.
+Theorem C19_cuckoo_length_local : forall h, local (Kck h) (op_ck_length h).
+Proof. exact ck_length_local. Qed.
+Theorem C19_cuckoo_keys_disjoint : forall h1 h2,
+  length (rq_key h1) = length (rq_key h2) -> rq_key h1 <> rq_key h2 ->
+  ~ Kck h2 (rq_meta h1) -> ~ Kck h1 (rq_meta h2) ->
+  forall k, Kck h1 k -> Kck h2 k -> False.
+Proof. exact cuckoo_keys_disjoint. Qed.
+Theorem C19_cuckoo_filters_do_not_interfere : forall O h1 h2 (prog : list (tagged_op O)) s,
+  length (rq_key h1) = length (rq_key h2) -> rq_key h1 <> rq_key h2 ->
+  ~ Kck h2 (rq_meta h1) -> ~ Kck h1 (rq_meta h2) ->
+  Forall (well_tagged O (Kck h1) (Kck h2)) prog ->
+  run_mixed O s prog = run_alone O s prog.
+Proof. exact cuckoo_filters_do_not_interfere. Qed.
+
+(* Top-K: Insert and Values are local to the sketch's rows and the sorted set *)
+Theorem C19_topk_insert_local : forall cpos t x c, local (Ktk t) (op_tk_insert cpos t x c).
+Proof. exact tk_insert_local. Qed.
+Theorem C19_topk_values_local : forall t, local (Ktk t) (op_tk_values t).
+Proof. exact tk_values_local. Qed.
+
 Print Assumptions C19_decimal_injective.
 Print Assumptions C19_row_key_injective.
 Print Assumptions C19_lset_frame.
@@ -87,3 +119,6 @@ Print Assumptions C19_non_interference.
 Print Assumptions C19_cms_structures_do_not_interfere.
 Print Assumptions C19_hll_update_local.
 Print Assumptions C19_bloom_insert_local.
+Print Assumptions C19_cuckoo_insert_local.
+Print Assumptions C19_cuckoo_filters_do_not_interfere.
+Print Assumptions C19_topk_insert_local.
